@@ -234,6 +234,54 @@ def rule_nl(ctx, prop):
                 rep.violation(f"{fe.key} eof-newline-shape",
                               "format_eof does not (pop trailing whitespace, then append exactly one configured newline)",
                               fe.loc(), cfg)
+        # (8b) pop_until_no_whitespace establishes its postcondition on every return path: the vector is empty or its last
+        # token is not Whitespace (so that format_eof appends exactly one newline after the last comment / shebang)
+        pw = prog.fn("stylua_lib", "formatters::general::pop_until_no_whitespace")
+        if rep.anchor(pw is not None, "pop_until_no_whitespace", cfg):
+            try:
+                pres = Enumerator(pw, max_paths=5000, max_visits=2, summaries=False).run()
+            except TooManyPaths:
+                pres = []
+                rep.anchor(False, "pop_until_no_whitespace: too many paths", cfg)
+            nret = 0
+            for st in pres:
+                nret += 1
+                calls = [(b, c) for b, c, t in st.calls]
+                names = [c for b, c in calls]
+                mut = [i for i, c in enumerate(names) if re.search(r"Vec::<T, A>::(pop|push|truncate|clear|remove|retain|drain|insert|swap_remove|split_off)$|pop_until_no_whitespace$", c)]
+                why = None
+                last_mut = names[mut[-1]] if mut else None
+                kinds = [v for k, v in st.hist if isinstance(v, (str, tuple)) and
+                         (v == "Whitespace" or (isinstance(v, tuple) and v[0] == "not" and "Whitespace" in v[1]) or
+                          (isinstance(v, str) and v in ("Shebang", "SingleLineComment", "MultiLineComment", "Identifier", "Number", "StringLiteral", "Symbol", "Eof")))]
+                opts = [v for k, v in st.hist if v in ("None", "Some")]
+                if last_mut is not None and last_mut.endswith("pop_until_no_whitespace"):
+                    ok = True                      # induction: the recursive call is the last thing that touches the vector
+                elif last_mut is None:
+                    # nothing was removed or added: fine only if the path learned that the vector is empty / ends in a
+                    # non-Whitespace token
+                    ok = (opts and opts[-1] == "None") or (kinds and kinds[-1] != "Whitespace")
+                    why = "returns without having looked at the last token"
+                elif last_mut.endswith("::push"):
+                    ok = bool(kinds) and kinds[-1] != "Whitespace"
+                    why = "pushes a token back that is not known to be non-Whitespace"
+                elif last_mut.endswith("::pop"):
+                    # popped and stopped: only fine if the vector is now known empty (pop returned None)
+                    ok = bool(opts) and opts[-1] == "None"
+                    if not ok:
+                        # loop form: the last test after the pop says the new last token is not Whitespace / absent
+                        ok = bool(kinds) and kinds[-1] != "Whitespace" and st.hist and st.hist[-1][1] != "Whitespace"
+                    why = "stops after a pop without knowing what is now last"
+                else:
+                    ok = False
+                    why = f"modifies the vector through {last_mut.split('::')[-1]}, which this rule cannot relate to `last token is not Whitespace`"
+                rep.inst(f"{pw.key} return path establishes `empty or last token not Whitespace` ({[c.split('::')[-1] for c in names]})", None, cfg, ok=bool(ok))
+                if not ok:
+                    rep.violation(f"{pw.key} postcondition-not-established {why.split(',')[0] if why else ''}",
+                                  f"a return path of pop_until_no_whitespace {why}: trailing whitespace can survive at the end of "
+                                  f"the file and format_eof appends its newline after it (several line endings at EOF)",
+                                  pw.loc(), cfg)
+            rep.floor("return paths of pop_until_no_whitespace", nret, 2, cfg)
         # (9) single-line comments and the shebang are trimmed at the end: the text of the rebuilt token is derived from the
         # input text through a `trim_end` (inline or inside a local helper)
         ft = prog.fn("stylua_lib", "formatters::general::format_token")
